@@ -12,7 +12,8 @@ import (
 
 // CheckC14: changing the maximum size on open.
 func CheckC14(r *core.Run) {
-	r.Rule = "random histories on bounded and unbounded files in which the file is closed and opened again with FlagUpdMaxSize and a larger / smaller / unbounded maximum size (with and without Prealloc) at random points, followed by further transactions, capacity filling and plain reopens; TxTrace.tla judges: root and contents unchanged (ResizeKeepsState, ReopenStable, every read), new limit persisted and in force, lock idle after Open (a reader and a writer get through under a watchdog), Conservation with the new limit (exactly the additional pages become allocatable), extent bound after shrinking; distinct = configurations/seeds"
+	defer exploreResize(r)()
+	r.Rule = "random histories on bounded and unbounded files in which the file is closed and opened again with FlagUpdMaxSize and a larger / smaller / unbounded maximum size (with and without Prealloc) at random points, followed by further transactions, capacity filling and plain reopens; TxTrace.tla judges: root and contents unchanged (ResizeKeepsState, ReopenStable, every read), new limit persisted and in force, lock idle after Open (a reader and a writer get through under a watchdog), Conservation with the new limit (exactly the additional pages become allocatable), extent bound after shrinking; explorer: TxFile.tla with ResizeHdr/ResizeSync, the forced release commit and the release of free pages beyond the limit in every commit (all invariants incl. CrashSafe and ReopenStable, GrowsWithinLimit, ResizeKeepsModel); distinct = configurations/seeds"
 	sizes := []uint64{64, 70, 96, 128, 200, 0, 65, 80}
 	cfgs := baseCfgs(r, "c14", r.Pick(30, 200), func(i int, c *HistCfg) {
 		c.Txs = r.Pick(40, 80)
